@@ -62,9 +62,10 @@ struct World {
     /// constant-product pair (the C01 monitors apply); false = two-asset stableswap
     cp: bool,
     // harness-side ghost sums (events / balance deltas)
-    chg: [u128; 2],
-    sent: [u128; 2],
-    brn: [u128; 2],
+    // ghost sums rebuilt from events, in 512 bits: a lifetime sum may pass u128::MAX where a counter cannot
+    chg: [Uint512; 2],
+    sent: [Uint512; 2],
+    brn: [Uint512; 2],
 }
 
 #[derive(Clone, Debug, PartialEq)]
@@ -77,7 +78,7 @@ struct Obs {
     colb: [u128; 2],
     /// the configured collector is `collector2`
     use_b: bool,
-    tot: [u128; 2],
+    tot: [Uint512; 2],
     sup: u128,
     lpp: u128,
     fees: [u128; 3],
@@ -178,9 +179,9 @@ impl World {
             _ => None,
         };
         let cast = self.cast();
-        let mut tot = [0u128; 2];
+        let mut tot = [Uint512::zero(); 2];
         for (k, t) in tot.iter_mut().enumerate() {
-            *t = cast.iter().map(|a| self.bal(a, k)).sum();
+            *t = cast.iter().fold(Uint512::zero(), |acc, a| acc + u512(self.bal(a, k)));
         }
         Obs {
             bal: [self.bal(&self.pair, 0), self.bal(&self.pair, 1)],
@@ -213,10 +214,10 @@ impl World {
             p2(&o.burn),
             p2(&o.col),
             p2(&o.colb),
-            p2(&self.chg),
-            p2(&self.sent),
-            p2(&self.brn),
-            p2(&o.tot),
+            format!("{},{}", self.chg[0], self.chg[1]),
+            format!("{},{}", self.sent[0], self.sent[1]),
+            format!("{},{}", self.brn[0], self.brn[1]),
+            format!("{},{}", o.tot[0], o.tot[1]),
             o.sup,
             o.lpp,
             o.fees[0],
@@ -330,7 +331,7 @@ fn build(kinds: [bool; 2], fees: (u128, u128, u128), n: usize, a: u128, bb: u128
             }
         }
     }
-    Ok(Some(World { app, pair, lp, kinds, denoms: DENOMS, tokens, users, owner, collector, collector2, minter, cp: ss.is_none(), chg: [0; 2], sent: [0; 2], brn: [0; 2] }))
+    Ok(Some(World { app, pair, lp, kinds, denoms: DENOMS, tokens, users, owner, collector, collector2, minter, cp: ss.is_none(), chg: [Uint512::zero(); 2], sent: [Uint512::zero(); 2], brn: [Uint512::zero(); 2] }))
 }
 
 /// the amounts of the pair's `swap` response attributes: (return, spread, swap fee, protocol fee, burn fee)
@@ -374,6 +375,11 @@ pub struct PairEngine {
     /// the last op was a successful provide by `u` for itself: (u, d0, d1, share, supply before, reserves before)
     last_provide: Option<(usize, u128, u128, u128, u128, [u128; 2])>,
     ubal: [u128; 2],
+    /// scripted "whale" history: balances of 2^127 per user, a 90 % protocol fee, swaps of the size of the
+    /// reserves in alternating directions with a collection after each one (and the collector switched when
+    /// its balance nears the u128 limit) — the one way a LIFETIME fee counter can pass u128::MAX while every
+    /// balance stays below it
+    whale: bool,
 }
 
 /// r0·r1·S'² ≤ r0'·r1'·S²  (LP value = sqrt(r0 r1)/S never falls), exact in 512 bits; None = does not fit
@@ -491,19 +497,19 @@ impl PairEngine {
             mon.check(
                 "C07",
                 "pair_ledger_eq_charged_minus_sent",
-                w.sent[k] <= w.chg[k] && post.pend[k] == w.chg[k] - w.sent[k],
+                w.sent[k] <= w.chg[k] && u512(post.pend[k]) == w.chg[k] - w.sent[k],
                 d(format!("after {op}: asset {k} pending {} but charged {} - sent {}", post.pend[k], w.chg[k], w.sent[k])),
             );
             mon.check(
                 "C07",
                 "pair_all_time_eq_charged",
-                post.all[k] == w.chg[k] && post.burn[k] == w.brn[k] && post.all[k] >= pre.all[k] && post.burn[k] >= pre.burn[k],
+                u512(post.all[k]) == w.chg[k] && u512(post.burn[k]) == w.brn[k] && post.all[k] >= pre.all[k] && post.burn[k] >= pre.burn[k],
                 d(format!("after {op}: asset {k} all-time {} burned {} vs charged {} burn charges {}", post.all[k], post.burn[k], w.chg[k], w.brn[k])),
             );
             mon.check(
                 "C07",
                 "pair_collector_balance_eq_sent",
-                post.col[k] + post.colb[k] == w.sent[k],
+                u512(post.col[k]) + u512(post.colb[k]) == w.sent[k],
                 d(format!("after {op}: asset {k} collectors hold {} + {} but {} was collected", post.col[k], post.colb[k], w.sent[k])),
             );
         }
@@ -728,7 +734,7 @@ impl PairEngine {
                             (post.col[k].saturating_sub(pre.col[k]), post.colb[k].saturating_sub(pre.colb[k]))
                         };
                         mon.check("C07", "pair_collect_exact", post.col[k] >= pre.col[k] && post.colb[k] >= pre.colb[k], d(format!("{op}: a collector's balance fell")));
-                        w.sent[k] += delta + other;
+                        w.sent[k] += u512(delta) + u512(other);
                         mon.check("C07", "pair_collect_to_configured_collector", other == 0, d(format!("{op}: asset {k}: the collector that is NOT configured received {other}")));
                         let above = pre.pend[k] > THRESHOLD;
                         mon.stat(if above { "collect_above_threshold" } else if pre.pend[k] == 0 { "collect_zero" } else { "collect_at_or_below_threshold" });
@@ -980,8 +986,8 @@ impl PairEngine {
             let ask = 1 - dir;
             let a = attrs.first().cloned().unwrap_or([u128::MAX; 5]);
             if attrs.len() == 1 && a[3] != u128::MAX && a[4] != u128::MAX {
-                w.chg[ask] += a[3];
-                w.brn[ask] += a[4];
+                w.chg[ask] += u512(a[3]);
+                w.brn[ask] += u512(a[4]);
             }
             mon.stat(if w.kinds[dir] { "swap_ok_native_offer" } else { "swap_ok_cw20_offer" });
             if a[3] > 0 {
@@ -1014,7 +1020,7 @@ impl PairEngine {
             mon.check(
                 "C07",
                 "pair_burn_leaves_circulation",
-                post.tot[ask] + a[4] == pre.tot[ask] && post.tot[dir] == pre.tot[dir] && post.burn[ask] == pre.burn[ask] + a[4] && post.col == pre.col && post.colb == pre.colb,
+                post.tot[ask] + u512(a[4]) == pre.tot[ask] && post.tot[dir] == pre.tot[dir] && u512(post.burn[ask]) == u512(pre.burn[ask]) + u512(a[4]) && post.col == pre.col && post.colb == pre.colb,
                 d(format!("{op}: burn fee {} but circulating {:?} -> {:?}, burned ledger {:?} -> {:?}", a[4], pre.tot, post.tot, pre.burn, post.burn)),
             );
         }
@@ -1045,6 +1051,11 @@ impl PairEngine {
             _ => (1u128 << rng.range(12, 118)) + rng.u128() % (1u128 << 12),
         };
         self.nusers = 4;
+        self.whale = self.variant != "ss" && rng.chance(1, 25);
+        if self.whale {
+            self.len = 90;
+            return format!("init pair k0=n k1=n p={} s=0 b={} n=4 a={} bb={} dn={}", 9 * E18 / 10, if rng.chance(1, 2) { 0 } else { E18 / 20 }, 1u128 << 127, 1u128 << 127, rng.below(DENOM_SETS.len() as u64));
+        }
         if self.variant == "ss" {
             // two-asset stableswap: balances within 2^12 .. 2^90, similar magnitudes after decimal normalisation
             let (d0, d1) = *rng.pick(&[(6u32, 6u32), (6, 6), (6, 8), (8, 6), (6, 18), (18, 6)]);
@@ -1074,6 +1085,42 @@ impl PairEngine {
         let n = self.nusers as u64;
         let u = rng.below(n) as usize;
         let res = o.pool.unwrap_or([0, 0, 0]);
+        if self.whale && (o.sup == 0 || !rng.chance(1, 5)) {
+            if o.sup == 0 {
+                return format!("provide 0 0 {} {} none 0", 1u128 << 126, 1u128 << 126);
+            }
+            // a collection whenever something is pending, the other collector once this one is half full
+            let cur = if o.use_b { o.colb } else { o.col };
+            if cur[0].max(cur[1]) > (1u128 << 127) {
+                let other = if o.use_b { o.col } else { o.colb };
+                if other[0].max(other[1]) <= (1u128 << 127) {
+                    return format!("setcol o {}", if o.use_b { 0 } else { 1 });
+                }
+            }
+            if o.pend[0].max(o.pend[1]) > THRESHOLD {
+                return format!("collect {u}");
+            }
+            // offer the asset whose reserve is the smaller one (keeps the pool from drifting), as much as the
+            // richest holder has, at most the reserve, and never so much that the pair's balance would overflow
+            let dir = if res[0] <= res[1] { 0 } else { 1 };
+            let t = (0..self.nusers).max_by_key(|v| o.users[*v][dir]).unwrap_or(0);
+            let room = u128::MAX - o.bal[dir] - 1;
+            let off = o.users[t][dir].min(res[dir] / 2).min(room);
+            if off > 0 {
+                return format!("swap {t} {dir} {off} {} {t}", E18 / 2);
+            }
+        }
+        if self.whale {
+            // in between: operations that cannot push a balance of the mock bank past u128::MAX (its
+            // limit, not the chain's)
+            return match rng.below(5) {
+                0 => format!("collect {u}"),
+                1 => format!("withdraw {u} {}", o.users[u][2] / (2 + rng.below(8) as u128)),
+                2 => format!("swap {u} {} {} {} {u}", rng.below(2), 1 + rng.below(1_000_000), E18 / 2),
+                3 => format!("setcol o {}", rng.below(2)),
+                _ => format!("setfees o {} 0 {}", 9 * E18 / 10, rng.below(2) as u128 * E18 / 20),
+            };
+        }
         // deposit-then-withdraw pattern
         if let Some((pu, _, _, share, _, _)) = self.last_provide {
             if rng.chance(1, 2) {
